@@ -1394,4 +1394,91 @@ example : basicAuthReq false vJoe b64decode ⟨"OPTIONS".toList,
       [("Access-Control-Request-Method".toList, "GET".toList), ("Upgrade".toList, "websocket".toList)]⟩
     = some (unauthorized []) := by decide
 
+
+/-! ## round 7: the third part of a header lookup is the cut-prefix, also when it is empty -/
+
+theorem splitOn_noSep (sep : Char) : ∀ a : Str, sep ∉ a → splitOn sep a = [a]
+  | [], _ => rfl
+  | c :: r, h => by
+    simp only [List.mem_cons, not_or] at h
+    have hc : ¬ c = sep := fun e => h.1 e.symm
+    simp [splitOn, hc, splitOn_noSep sep r h.2]
+
+theorem splitOn_append_sep (sep : Char) : ∀ (a b : Str), sep ∉ a → splitOn sep (a ++ sep :: b) = a :: splitOn sep b
+  | [], b, _ => by simp [splitOn]
+  | c :: r, b, h => by
+    simp only [List.mem_cons, not_or] at h
+    have hc : ¬ c = sep := fun e => h.1 e.symm
+    simp [splitOn, hc, splitOn_append_sep sep r b h.2]
+
+/-- **C13_header_cut_prefix_literal** — `header:<name>:<cut-prefix>`: the third part IS the
+    cut-prefix, for every name and every AuthScheme — also when it is EMPTY (`header:Authorization:`:
+    nothing is cut, the AuthScheme's back-compat `Bearer ` is not imposed). -/
+theorem C13_header_cut_prefix_literal (scheme n p : Str) (hn : ':' ∉ n) (hp : ':' ∉ p) :
+    parseSource scheme ("header".toList ++ ':' :: (n ++ ':' :: p)) = some (some ⟨.header, n, p⟩) := by
+  have h1 : splitOn ':' ("header".toList ++ ':' :: (n ++ ':' :: p)) = ["header".toList, n, p] := by
+    rw [splitOn_append_sep ':' "header".toList _ (by decide), splitOn_append_sep ':' n p hn, splitOn_noSep ':' p hp]
+  unfold parseSource
+  rw [h1]
+  have e1 : ¬ ("header".toList = "query".toList) := by decide
+  have e2 : ¬ ("header".toList = "param".toList) := by decide
+  have e3 : ¬ ("header".toList = "cookie".toList) := by decide
+  have e4 : ¬ ("header".toList = "form".toList) := by decide
+  simp only [e1, e2, e3, e4, if_false, if_true]
+
+/-- without a third part the AuthScheme (plus a blank) is the cut-prefix of `Authorization`, and
+    only of `Authorization` -/
+theorem C13_header_default_prefix (scheme n : Str) (hn : ':' ∉ n) :
+    parseSource scheme ("header".toList ++ ':' :: n) = some (some ⟨.header, n,
+      if scheme ≠ [] ∧ n = authorizationLit then (if hasSuffixSpace scheme then scheme else scheme ++ [' ']) else []⟩) := by
+  have h1 : splitOn ':' ("header".toList ++ ':' :: n) = ["header".toList, n] := by
+    rw [splitOn_append_sep ':' "header".toList _ (by decide), splitOn_noSep ':' n hn]
+  unfold parseSource
+  rw [h1]
+  have e1 : ¬ ("header".toList = "query".toList) := by decide
+  have e2 : ¬ ("header".toList = "param".toList) := by decide
+  have e3 : ¬ ("header".toList = "cookie".toList) := by decide
+  have e4 : ¬ ("header".toList = "form".toList) := by decide
+  simp only [e1, e2, e3, e4, if_false, if_true]
+  split <;> rfl
+
+/-- with an empty cut-prefix every value of the header is a key as it stands -/
+theorem C13_empty_prefix_whole_value (n : Str) (nv : Str × Str) :
+    keyOf ⟨.header, n, []⟩ nv = some nv.2 := by
+  simp [keyOf, hdrKey]
+
+/-! ## round 7: a response that was already started when the middleware is entered -/
+
+/-- **C13_commit_same_decision** — an earlier middleware having started the response changes
+    nothing about who reaches the handler and what the validator is asked; only the status on the
+    wire stays the one already written (and a challenge set afterwards is not sent). -/
+theorem C13_commit_same_decision (committed : Option Nat) :
+    (∀ o : BObs, (commitB committed o).ran = o.ran ∧ (commitB committed o).calls = o.calls) ∧
+    (∀ o : KObs, (commitK committed o).ran = o.ran ∧ (commitK committed o).calls = o.calls ∧
+      (commitK committed o).ehClass = o.ehClass) ∧
+    (∀ o : SObs, (commitS committed o).ran = o.ran ∧ (commitS committed o).layers = o.layers) := by
+  cases committed <;> simp [commitB, commitK, commitS]
+
+/-- hence the soundness statement survives: behind BasicAuth with a response already started the
+    handler still runs only after a yes to the literally decoded credentials -/
+theorem C13_commit_basic_sound (committed : Option Nat) (skip : Bool) (V : Str → Str → Outcome)
+    (dec : Str → Option Str) (r : HReq) (o : BObs) (h : basicAuthReq skip V dec r = some o)
+    (hr : (commitB committed o).ran = true) :
+    skip = true ∨ ∃ auth u p, (r.values authorizationLit).head? = some auth ∧ Guard auth ∧
+      dec (auth.drop 6) = some (u ++ ':' :: p) ∧ ':' ∉ u ∧ V u p = .yes ∧ (commitB committed o).calls = [(u, p)] := by
+  obtain ⟨h1, _, _⟩ := C13_commit_same_decision committed
+  rw [(h1 o).1] at hr
+  rw [(h1 o).2]
+  exact C13_basic_req_sound skip V dec r o h hr
+
+-- `header:Authorization:` with the default scheme: the raw key is the key; `Bearer abc` stays `Bearer abc`
+example : parseLookups "header:Authorization:".toList [] = some [⟨.header, authorizationLit, []⟩] ∧
+    parseLookups "header:Authorization".toList [] = some [⟨.header, authorizationLit, "Bearer ".toList⟩] ∧
+    parseLookups "header:Authorization::x".toList "Token".toList = some [⟨.header, authorizationLit, []⟩] := by decide
+example : keyAuth (fun k => if k = "raw-api-key".toList then .yes else .no) ⟨[⟨.header, authorizationLit, []⟩], .absent, false⟩
+      [[("Authorization".toList, "raw-api-key".toList)]] = some ⟨true, 200, 0, ["raw-api-key".toList]⟩ ∧
+    keyAuth (fun k => if k = "abc".toList then .yes else .no) ⟨[⟨.header, authorizationLit, []⟩], .absent, false⟩
+      [[("Authorization".toList, "Bearer abc".toList)]] = some ⟨false, 401, 0, ["Bearer abc".toList]⟩ := by decide
+example : commitB (some 202) (unauthorized [("u".toList, "p".toList)]) = ⟨false, 202, false, [("u".toList, "p".toList)]⟩ := by decide
+
 end C13
